@@ -401,4 +401,104 @@ theorem inv_buildFrom {evs : List Ev} {n : Nat} (hw : WellNested n evs) :
 theorem inv_build {evs : List Ev} {n : Nat} (hw : WellNested n evs) : Inv evs evs.length (build evs) :=
   inv_buildFrom hw evs 0 [] (by simp) (by simpa using inv_nil evs)
 
+/-! ### all streams: the nodes are exactly the events -/
+
+/-- holds for EVERY event list (no nesting assumption) -/
+structure Inv0 (evs : List Ev) (k : Nat) (R : List Tree) : Prop where
+  ids : (idsList R).Perm (List.range k)
+  evOf : ∀ t ∈ subtreesList R, evs[t.id]? = some t.ev
+
+theorem inv0_step {evs : List Ev} {k : Nat} {S : List Tree} {ev : Ev}
+    (hk : evs[k]? = some ev) (h : Inv0 evs k S.reverse) : Inv0 evs (k + 1) (addNode k S ev).reverse := by
+  obtain ⟨before, kids, after, hR, hR', _⟩ := addNode_spec k S ev
+  rw [hR'] at *
+  rw [hR] at h
+  refine ⟨?_, ?_⟩
+  · have h1 := h.ids
+    simp only [idsList_append, idsList, Tree.ids] at h1 ⊢
+    rw [List.range_succ]
+    refine List.Perm.trans ?_ ((h1.append_right [k]).trans (by simp))
+    simp only [List.append_assoc]
+    refine (List.perm_append_left_iff _).2 ?_
+    rw [← List.append_assoc (idsList kids)]
+    exact (List.perm_append_singleton k _).symm
+  · intro t ht
+    simp only [subtreesList_append, subtreesList, Tree.subtrees, List.mem_append, List.mem_cons] at ht
+    have hold := h.evOf
+    simp only [subtreesList_append, List.mem_append] at hold
+    rcases ht with ht | (rfl | ht) | ht
+    · exact hold t (.inl ht)
+    · exact hk
+    · exact hold t (.inr (.inl ht))
+    · exact hold t (.inr (.inr ht))
+
+theorem inv0_buildFrom {evs : List Ev} :
+    ∀ (rest : List Ev) (k : Nat) (S : List Tree), evs.drop k = rest → k ≤ evs.length → Inv0 evs k S.reverse →
+      Inv0 evs evs.length (buildFrom k S rest).reverse := by
+  intro rest
+  induction rest with
+  | nil =>
+    intro k S hd hle h
+    have : evs.length ≤ k := List.drop_eq_nil_iff.1 hd
+    have hk : k = evs.length := by omega
+    subst hk; exact h
+  | cons ev rest ih =>
+    intro k S hd hle h
+    have hk : evs[k]? = some ev := by
+      have : (evs.drop k)[0]? = some ev := by rw [hd]; rfl
+      simpa using this
+    have hd' : evs.drop (k + 1) = rest := by
+      have : (evs.drop k).drop 1 = rest := by rw [hd]; rfl
+      simpa [List.drop_drop, Nat.add_comm] using this
+    have hlt := (List.getElem?_eq_some_iff.1 hk).1
+    exact ih (k + 1) (addNode k S ev) hd' (by omega) (inv0_step hk h)
+
+theorem inv0_build (evs : List Ev) : Inv0 evs evs.length (build evs) :=
+  inv0_buildFrom evs 0 [] (by simp) (Nat.zero_le _) ⟨by simp [idsList], by simp [subtreesList]⟩
+
+/-! ### the `File` node of `builder.build()` -/
+
+theorem buildFrom_append (k : Nat) (S : List Tree) (a b : List Ev) :
+    buildFrom k S (a ++ b) = buildFrom (k + a.length) (buildFrom k S a) b := by
+  induction a generalizing k S with
+  | nil => simp [buildFrom]
+  | cons e a ih =>
+    simp only [List.cons_append, buildFrom, List.length_cons]
+    rw [ih]
+    congr 1
+    omega
+
+/-- if no reported node starts at the end offset `n`, the `File` node becomes the single root -/
+theorem build_file_single {n : Nat} {evs : List Ev} (fileTy : Int) (hw : WellNested n evs)
+    (hlt : ∀ e ∈ evs, e.off < n) :
+    ∃ kids, build (evs ++ [⟨fileTy, 0, n⟩]) = [Tree.node evs.length ⟨fileTy, 0, n⟩ kids] := by
+  have hinv := inv_build hw
+  unfold build at hinv ⊢
+  rw [buildFrom_append]
+  simp only [buildFrom, Nat.zero_add]
+  obtain ⟨before, kids, after, hR, hR', hparts⟩ := addNode_spec evs.length (buildFrom 0 [] evs) ⟨fileTy, 0, n⟩
+  have hsorted : (buildFrom 0 [] evs).Pairwise (fun a b => b.off ≤ a.off) := by
+    have := sorted_off hw.1 hinv
+    exact List.pairwise_reverse.1 (by simpa using this)
+  obtain ⟨hb, _, ha⟩ := hparts hsorted
+  have hbefore : before = [] := by
+    cases before with
+    | nil => rfl
+    | cons t _ => have := hb t (List.mem_cons_self ..); simp at this
+  have hafter : after = [] := by
+    cases after with
+    | nil => rfl
+    | cons t _ =>
+      exfalso
+      have h1 := (ha t (List.mem_cons_self ..)).2
+      have hmem : t ∈ (buildFrom 0 [] evs).reverse := by
+        rw [hR]; simp
+      have hev := hinv.root_ev hmem
+      have := hlt t.ev (List.mem_of_getElem? hev)
+      unfold Tree.off at h1
+      simp only at h1
+      omega
+  rw [hR', hbefore, hafter]
+  exact ⟨kids, rfl⟩
+
 end TmVerif.TreeBuilder
